@@ -64,6 +64,7 @@ type vpRescanChain struct {
 	nextFireAt     []int // firing points (calls after the previous change) of the changes after the first
 	filterFailures int   // GetCFilter fails this many more times
 	blockFailures  int
+	notCurrent     bool // the backend is still syncing (IsCurrent reports false)
 }
 
 func (c *vpRescanChain) maybeChange() {
@@ -135,7 +136,7 @@ func (c *vpRescanChain) GetCFilter(hash chainhash.Hash, _ wire.FilterType, _ ...
 	}
 	return f, nil
 }
-func (c *vpRescanChain) IsCurrent() bool { return true }
+func (c *vpRescanChain) IsCurrent() bool { return !c.notCurrent }
 func (c *vpRescanChain) Subscribe(bestHeight uint32) (*blockntfns.Subscription, error) {
 	if int(bestHeight) > len(c.best)-1 {
 		return nil, errors.New("vp: subscription height above the tip")
